@@ -66,3 +66,37 @@ Proof.
   intros S c O [Hh [Hf Hc]] L r. rewrite (thl_all_exact S c O Hh Hf Hc L r). symmetry. exact (exh_all_exact S c O L r).
 Qed.
 Print Assumptions C05_thl_eq_exh.
+
+(** the labelled solvers *)
+From SR Require Import Model.Subseq Model.Spfs Model.Uspfs Proofs.SubseqProofs Proofs.LabelCostProofs
+  Proofs.SpfsProofs Proofs.SpfsFinal Proofs.UspfsProofs Proofs.UspfsFinal.
+
+(* base/ext SPFS: ALL = exactly the optimal solutions, each once; ANY = one of them (none iff no solution) *)
+Theorem C05_spfs_all_exact : forall S c extended orders O, nn (c_hgt c) -> orders_ok S O orders -> coherent_ord c ->
+  forall e, spfs S c RALL extended orders O = Some e ->
+  (forall lt, In lt (tags e) <-> optimal_sol S c extended orders O lt) /\ NoDup (tags e).
+Proof.
+  intros S c extended orders O Hh HO Hc e E. split.
+  - exact (spfs_all_exact S c extended orders O Hh HO Hc e E).
+  - exact (spfs_all_nodup S c extended orders O e E).
+Qed.
+Print Assumptions C05_spfs_all_exact.
+
+Theorem C05_spfs_any : forall S c extended orders O, nn (c_hgt c) -> orders_ok S O orders -> coherent_ord c ->
+  exists e, spfs S c RANY extended orders O = Some e /\
+    ((tags e = [] /\ forall lt, ~ sol S extended orders O lt) \/
+     exists lt, tags e = [lt] /\ optimal_sol S c extended orders O lt).
+Proof. exact spfs_any. Qed.
+Print Assumptions C05_spfs_any.
+
+(* base/ext USPFS: ALL = exactly the optimal canonical solutions, each once; ANY = exactly one of them *)
+Theorem C05_uspfs_all_exact_canonical : forall S c extended O, nn (c_hgt c) -> ucoherent c -> leaves_ok S O ->
+  exists E, uspfs S c RALL extended O = Some E /\ NoDup (tags E) /\
+    forall t, In t (tags E) <-> uoptimal S c extended O t.
+Proof. exact uspfs_all_exact. Qed.
+Print Assumptions C05_uspfs_all_exact_canonical.
+
+Theorem C05_uspfs_any : forall S c extended O, nn (c_hgt c) -> ucoherent c -> leaves_ok S O ->
+  exists E t, uspfs S c RANY extended O = Some E /\ tags E = [t] /\ uoptimal S c extended O t.
+Proof. exact uspfs_any. Qed.
+Print Assumptions C05_uspfs_any.
